@@ -262,7 +262,12 @@ static uint64_t mclk_lookup(uint32_t avtp_time)
 {
     uint64_t mclk_timestamp = get_next_mclk_timestamp();
 
-    while (mclk_timestamp % (1ULL << 32) != avtp_time)
+    /* Search the timestamps recovered from the CRF stream only. Once they
+     * are used up the media clock free-wheels and would never match a
+     * presentation time that is not on its grid.
+     */
+    while (mclk_timestamp % (1ULL << 32) != avtp_time &&
+           !STAILQ_EMPTY(&mclk_timestamps))
         mclk_timestamp = get_next_mclk_timestamp();
 
     return mclk_timestamp;
